@@ -553,6 +553,10 @@ def run(repo, R):
     R.rule("SLOT", "back-end parameters receive the shell's own attributes of the same role; Eval is order zero")
     R.rule("GENERAL", "general back-end: Leibniz/Hermite sum equals the definition for orders 0..4 x n 0..6 (bounded enumeration of formula parameters)")
     R.rule("DISPATCH", "evaluate_basis / evaluate_deriv_basis forward points, orders, deriv_type identically on the four assembly branches")
+    from ..flow import check_default_is
+    for q_ in ("gbasis.evals.eval_deriv.evaluate_deriv_basis", "gbasis.evals.eval_deriv.EvalDeriv.construct_array_contraction"):
+        check_default_is(repo.func(q_), R, "GUARD-DOMAIN", "deriv_type", "general",
+                         "the default back-end must be the one that implements every order (the direct one rejects orders above 2)")
     max_order, masks = run_direct(repo, R)
     run_guards(repo, R, max_order)
     from .c05_general import run_general
@@ -566,6 +570,13 @@ def run(repo, R):
         check_wrapper_dispatch(repo, f, R, "DISPATCH")
     R.floor("DIRECT", R.rules["DIRECT"][0], 4, "closed-form obligations of the direct back-end")
     R.extra["direct_order_classes"] = {k: list(v) for k, v in masks.items()}
+    # the property is stated for Cartesian, spherical and mixed bases and with a transformation: the assembly of this operator's base
+    # class (norm once per index, own Cartesian->spherical matrix, segment-major blocks, transformation on every index) is part of it
+    from ..report import compose as _compose
+    from . import c09 as _c09
+    _bases = ('base_one',)
+    _compose(R, "C09", _c09.run, repo, keep=lambda fd: any(b_ in (fd.where or "") or b_ in fd.site for b_ in _bases) or "spherical.py" in (fd.where or ""),
+             why="results for spherical / mixed / transformed bases are assembled by " + ", ".join(_bases))
     R.assumptions += ["elementwise abstraction of numpy (broadcast adapters dropped); `if mask.any()` guards analysed as taken (a masked store "
                       "with an empty mask is a no-op) - the component array is a full shell",
                       "sympy diff/simplify on x^n exp(-a x^2) with n a non-negative integer symbol",
